@@ -19,6 +19,7 @@ func usage() {
 	fmt.Fprintln(os.Stderr, `usage:
   vcgen check <property-id> [--thorough] [--repo dir]
   vcgen func <substring-of-function-key> [--keep] [--repo dir]   debug: verify matching functions
+  vcgen mutant <property-id> <patch.diff>                       verify the property on a scratch copy with the patch applied
   vcgen dump <substring>                                        debug: print SSA
   vcgen list                                                    contracts and their properties`)
 	os.Exit(2)
@@ -57,6 +58,26 @@ func main() {
 			usage()
 		}
 		os.Exit(checkProperty(pos[0], *thorough, *verbose, *replay, *timeout, *keep))
+	case "mutant":
+		if len(pos) != 2 {
+			usage()
+		}
+		failed, errs, err := runMutant(pos[0], pos[1])
+		if err != nil {
+			fmt.Fprintln(os.Stderr, "error:", err)
+			os.Exit(2)
+		}
+		for _, e := range errs {
+			fmt.Println("ENGINE-ERROR", e)
+		}
+		for _, f := range failed {
+			fmt.Println("FAILED", f)
+		}
+		fmt.Printf("%d failed obligations\n", len(failed))
+		if len(failed) > 0 || len(errs) > 0 {
+			os.Exit(1)
+		}
+		os.Exit(0)
 	case "func":
 		if len(pos) != 1 {
 			usage()
@@ -165,7 +186,3 @@ func debugFunc(sub string, keep, verbose bool, timeout int) int {
 	return rc
 }
 
-func checkProperty(id string, thorough, verbose bool, replay string, timeout int, keep bool) int {
-	fmt.Fprintln(os.Stderr, "check not built yet")
-	return 2
-}
